@@ -287,6 +287,13 @@ func (s *secretStore) registerChainKey(ctx context.Context, group *protocoltypes
 
 	s.messageMutex.Lock()
 
+	// The check above was made without the lock: another registration of this
+	// device may have completed in between, look again before writing.
+	if _, err := s.getDeviceChainKeyForGroupAndDevice(ctx, groupPublicKey, devicePublicKey); err == nil {
+		s.messageMutex.Unlock()
+		return nil
+	}
+
 	if deviceChainKey, err = s.preComputeKeys(ctx, devicePublicKey, groupPublicKey, deviceChainKey); err != nil {
 		s.messageMutex.Unlock()
 		return errcode.ErrCode_ErrCryptoKeyGeneration.Wrap(err)
